@@ -140,21 +140,58 @@ def names():
 REGISTRY_SIZE = 90
 
 
+PANEL = ['sparse_trim', 'sparse_untrimmed_zero', 'dense_zero', 'log2', 'log10', 'log_half', 'named', 'loge_named']
+
+
+def panel_spec(rng, rep):
+    """a small joint distribution in one of the representations of the panel"""
+    import itertools
+    while True:
+        spec = G.gen_spec(rng, nmin=2, nmax=3, amax=2, allow_log=False, prob_kinds=KINDS, klasses=('str',), allow_names=False)
+        full = [list(o) for o in itertools.product(*spec['alph'])]
+        rest = [o for o in full if o not in spec['outcomes']]
+        has_zero = any(p == 0 for p in spec['pmf'])
+        if sum(1 for p in spec['pmf'] if p > 0) >= 2 and (rep not in ('sparse_untrimmed_zero', 'dense_zero') or rest or has_zero):
+            break
+    if rep in ('sparse_untrimmed_zero', 'dense_zero'):
+        if rest and not any(p == 0 for p in spec['pmf']):
+            spec['outcomes'] = spec['outcomes'] + [rest[0]]
+            spec['pmf'] = spec['pmf'] + [0.0]
+            if spec['ss_kind'] == 'expl' and rest[0] not in spec['ss']:
+                spec['ss'] = spec['ss'] + [rest[0]]
+        spec['sparse'] = rep == 'sparse_untrimmed_zero'
+        spec['trim'] = False
+    elif rep == 'sparse_trim':
+        spec['sparse'], spec['trim'] = True, True
+    elif rep == 'log2':
+        spec['base'] = 2
+    elif rep == 'log10':
+        spec['base'] = 10
+    elif rep == 'log_half':
+        spec['base'] = 0.5
+    elif rep == 'named':
+        spec['names'] = rng.sample(G.NAMES, spec['n'])
+    elif rep == 'loge_named':
+        spec['base'] = 'e'
+        spec['names'] = rng.sample(G.NAMES, spec['n'])
+    return spec
+
+
 def generate(rng, tier):
-    # the registry needs dit: generate by index, resolved in observe
-    reps = 6 if tier == 'quick' else 40
+    # the registry needs dit: generate by index, resolved in observe; every callable meets every representation of the panel
+    reps = 1 if tier == 'quick' else 6
     cases = []
     for idx in range(REGISTRY_SIZE):
-        for _ in range(reps):
-            spec = G.gen_spec(rng, nmin=2, nmax=3, amax=2, allow_log=True, prob_kinds=KINDS, klasses=('str',))
-            spec2 = dict(spec)
-            sup = spec['outcomes']
-            spec2['pmf'] = G.gen_probs(rng, len(sup), rng.choice(KINDS))
-            # zero stays zero so that both are valid tables over the same outcomes
-            spec2['pmf'] = [0.0 if p == 0 else q for p, q in zip(spec['pmf'], spec2['pmf'])]
-            s = sum(spec2['pmf'])
-            spec2['pmf'] = [q / s for q in spec2['pmf']]
-            cases.append({'fn': idx, 'spec': spec, 'spec2': spec2, 'other': rng.randrange(REGISTRY_SIZE)})
+        for rep in PANEL:
+            for _ in range(reps):
+                spec = panel_spec(rng, rep)
+                spec2 = dict(spec)
+                spec2['pmf'] = G.gen_probs(rng, len(spec['outcomes']), rng.choice(KINDS))
+                # zero stays zero so that both are valid tables over the same outcomes
+                spec2['pmf'] = [0.0 if p == 0 else q for p, q in zip(spec['pmf'], spec2['pmf'])]
+                s = sum(spec2['pmf'])
+                spec2['pmf'] = [q / s for q in spec2['pmf']]
+                cases.append({'fn': idx, 'rep': rep, 'spec': spec, 'spec2': spec2, 'other': rng.randrange(REGISTRY_SIZE)})
     return cases
 
 
@@ -225,7 +262,7 @@ def nontrivial(case, o):
 
 
 def describe(case, o):
-    return {'callable': o.get('name'), 'status': o.get('status'), 'base': case['spec']['base'], 'sparse': case['spec']['sparse'],
+    return {'callable': o.get('name'), 'status': o.get('status'), 'rep': case.get('rep'), 'base': case['spec']['base'], 'sparse': case['spec']['sparse'],
             'named': case['spec']['names'] is not None}
 
 
